@@ -14,6 +14,8 @@ Vocabulary
 
 Public API (stable; other checks import it)
     ref = load()                           singleton, build once in init_worker
+    ref.schema_errors / ref.schema_cases() cells of the tables that break SCHEMA; such rows are left out of the model and
+                                           must be reported by the check (sub 'table', behaviour 'malformed-row')
     ref.prefixes                           {prefix: float factor}, table order
     ref.symbols                            {symbol: Symbol}, table order (UNIT_STANDARD then QUANTITY_UNITS)
     ref.spellings                          {text: Spelling}
@@ -110,50 +112,142 @@ def close(a, b, rel=1e-12):
 _ATOM = re.compile(r"^(?P<sym>.*[^0-9:+\-])(?P<exp>[+-]?[0-9]+(?::[0-9]+)?)?$", re.S)
 
 
+def _is_number(v):
+    if isinstance(v, bool):
+        return False
+    try:
+        import numpy as np
+        if isinstance(v, (np.integer, np.floating)):
+            return True
+    except Exception:
+        pass
+    return isinstance(v, (int, float))
+
+
+def _good_magnitude(v):
+    return _is_number(v) and math.isfinite(float(v)) and float(v) > 0
+
+
+def _good_dims(v, fractions=True):
+    if not isinstance(v, (list, tuple)) or len(v) != NDIM:
+        return False
+    for x in v:
+        if isinstance(x, tuple):
+            if not (fractions and len(x) == 2 and all(isinstance(c, int) and not isinstance(c, bool) for c in x)
+                    and x[1] != 0):
+                return False
+        elif isinstance(x, bool) or not isinstance(x, int):
+            if not (isinstance(x, float) and x == int(x)):
+                return False
+    return True
+
+
+SCHEMA = {
+    "magnitude": "a finite number > 0",
+    "dimensions": "a list of %d integers or (numerator, denominator) pairs" % NDIM,
+    "prefixes": "True, False or a list of keys of UNIT_PREFIXES",
+    "definition": "None, a text or a unit-type class",
+    "row": "(magnitude, list of %d integers)" % NDIM,
+    "spelling": "no spelling producible in two ways (prefix + symbol)",
+}
+
+
 class UnitsRef:
 
     def __init__(self):
+        """Reads the tables.  Every cell is validated against SCHEMA first; a row with a malformed cell is NOT adopted
+        as specification (its symbol is left out of ``symbols`` / ``spellings``) and is listed in ``schema_errors`` -
+        the checks report each entry as an ordinary failure (sub 'table', behaviour 'malformed-row')."""
         from scinumtools.units import settings as st
         self.dimension_list = list(st.DIMENSION_LIST)
         if len(self.dimension_list) != NDIM:
             raise RuntimeError("DIMENSION_LIST changed")
+        self.schema_errors = []          # [dict(table, key, column, value)]
+        self.rows_validated = 0
+
+        def bad(table, key, column, value):
+            self.schema_errors.append(dict(table=table, key=key, column=column, value=repr(value)[:120]))
+
         self.prefixes = {}
         for p in st.UNIT_PREFIXES.keys():
-            self.prefixes[p] = float(st.UNIT_PREFIXES[p].magnitude)
+            row = st.UNIT_PREFIXES[p]
+            self.rows_validated += 1
+            ok = True
+            if not _good_magnitude(row.magnitude):
+                bad("UNIT_PREFIXES", p, "magnitude", row.magnitude)
+                ok = False
+            if not _good_dims(row.dimensions, fractions=False) or any(x != 0 for x in row.dimensions):
+                bad("UNIT_PREFIXES", p, "dimensions", row.dimensions)
+                ok = False
+            if ok:
+                self.prefixes[p] = float(row.magnitude)
         self.symbols = {}
         for s in st.UNIT_STANDARD.keys():
             row = st.UNIT_STANDARD[s]
+            self.rows_validated += 1
+            ok = True
             d = row.definition
             if isinstance(d, type):
                 n = d.__name__
                 kind = "offset" if n.startswith("Temperature") else "logarithmic" if n.startswith("Logarithmic") \
                     else "special"
                 d = n
-            else:
+            elif d is None or isinstance(d, str):
                 kind = "linear"
+            else:
+                bad("UNIT_STANDARD", s, "definition", d)
+                ok = False
             rule = row.prefixes
-            if isinstance(rule, (list, tuple)):
+            if isinstance(rule, list):
                 rule = list(rule)
+                if not all(isinstance(x, str) and x in st.UNIT_PREFIXES.keys() for x in rule) \
+                        or len(set(rule)) != len(rule):
+                    bad("UNIT_STANDARD", s, "prefixes", row.prefixes)
+                    ok = False
             elif rule is not True and rule is not False:
-                raise RuntimeError("unexpected prefixes entry for %s: %r" % (s, rule))
-            self.symbols[s] = Symbol(s, float(row.magnitude), tuple(_frac(v) for v in row.dimensions), rule, kind,
-                                     False, d, row.name)
-        for s, (mag, dims) in st.QUANTITY_UNITS.items():
-            if s in self.symbols:
-                raise RuntimeError("system unit shadows a table unit: " + s)
+                bad("UNIT_STANDARD", s, "prefixes", row.prefixes)
+                ok = False
+            if not _good_magnitude(row.magnitude):
+                bad("UNIT_STANDARD", s, "magnitude", row.magnitude)
+                ok = False
+            if not _good_dims(row.dimensions):
+                bad("UNIT_STANDARD", s, "dimensions", row.dimensions)
+                ok = False
+            if ok:
+                self.symbols[s] = Symbol(s, float(row.magnitude), tuple(_frac(v) for v in row.dimensions), rule, kind,
+                                         False, d, row.name)
+        for s, val in st.QUANTITY_UNITS.items():
+            self.rows_validated += 1
+            if not (isinstance(val, (tuple, list)) and len(val) == 2 and _good_magnitude(val[0])
+                    and _good_dims(val[1], fractions=False)) or not isinstance(s, str) or s in st.UNIT_STANDARD.keys():
+                bad("QUANTITY_UNITS", s, "row", val)
+                continue
+            mag, dims = val
             self.symbols[s] = Symbol(s, float(mag), tuple(_frac(v) for v in dims), False, "linear", True, None, s)
         # dictionary of valid spellings; the table must be unambiguous
         self.spellings = {}
-        clashes = []
         for s, sym in self.symbols.items():
             for p in [None] + self.admissible(s):
                 text = s if p is None else p + s
                 if text in self.spellings:
-                    clashes.append(text)
+                    other = self.spellings[text]
+                    bad("UNIT_STANDARD", s, "spelling", "%s = %s+%s and %s+%s" % (text, p, s, other.prefix, other.symbol))
                     continue
                 self.spellings[text] = Spelling(text, p, sym, None if p is None else self.prefixes[p])
-        if clashes:
-            raise RuntimeError("ambiguous unit tables, spelt twice: %r" % clashes)
+
+    def schema_cases(self):
+        """[(case, expected, observed)] for every malformed cell: input of the checks' 'table' failure records"""
+        return [(dict(sub="table", table=e["table"], key=e["key"], column=e["column"]), SCHEMA[e["column"]], e["value"])
+                for e in self.schema_errors]
+
+    @staticmethod
+    def replay_schema_case(case):
+        """re-read the tables (not the cached model) and return (expected, observed) if the cell is still malformed"""
+        fresh = UnitsRef()
+        for c, exp, obs in fresh.schema_cases():
+            if (c["table"], c["key"], c["column"]) == (case["table"], case["key"], case["column"]):
+                return exp, obs
+        return None
 
     # ---------------------------------------------------------------- table queries
     def admissible(self, symbol):
